@@ -2,6 +2,7 @@ import Model.Compress
 import Model.CompressHeap
 import Model.CompressRecv
 import Model.CompressSnappy
+import Model.CompressSend
 import Driver.Util
 namespace Driver.C18
 open Util Compress
@@ -507,6 +508,57 @@ def bigOp (comp : String) (ver hflag bodyLen : Nat) (enc dec : Option (Except Un
       | .ok n => s!"ok:len={n},same=true"
     s!"build=ok:len={l},field={field % 4294967296} read={rd}"
 
+
+/-! op `senderr <codec> <step>…` — compressor errors on the send path of a real connection (Model/CompressSend.lean):
+      `<kind>/<f|s>/<blob>`  one request through Conn.exec; f = the compressor's Encode refuses this body
+      `+<kind>/<blob>`       the same, but the peer withholds its answer (the call stays in flight)
+      `r`                    the peer answers everything it withheld
+    answers: what the caller got, how many Encode calls ran, streams taken / calls registered afterwards,
+    and the frames the peer has read since the last answer (`<opcode>/<compress bit>/<same|diff>`: payload
+    decoded by an independent decoder = the body the builder makes without a compressor). -/
+
+structure SendDrv where
+  st      : SendSt
+  pending : List Int
+  next    : Int
+
+def sendCodec (fail : Bool) : Codec :=
+  { enc := fun x => if fail then .error () else .ok (0x5A :: x), dec := fun y => .ok (y.drop 1) }
+
+def sendFrameStr (f : Framer) (body w : List UInt8) : String :=
+  match f.decode w with
+  | .ok (h, b) => s!"{h.op.toNat}/{(h.flags &&& 1).toNat}/{if b == body then "same" else "diff"}"
+  | .error _ => "undecodable"
+
+def senderrStep (codec : String) (d : SendDrv) (tok : String) : SendDrv × String :=
+  if tok == "r" then
+    let st := d.pending.foldl respond d.st
+    ({ d with st := st, pending := [] }, s!"released={d.pending.length},held={st.calls.length},calls={st.calls.length}")
+  else
+    let (isP, fields) := match tok.toList with
+      | '+' :: rest => (true, ("s" :: (String.ofList rest).splitOn "/"))
+      | _ => (false, match tok.splitOn "/" with | [k, fl, b] => [fl, k, b] | _ => [])
+    match fields with
+    | [fl, kind, blob] =>
+      match parseReq kind, parseBytes blob with
+      | some r, some body =>
+        let f := newFramer (if codec == "none" then none else some (sendCodec (fl == "f"))) 4
+        let encCalls := if (r.headerFlags f &&& flagCompress) == flagCompress then 1 else 0
+        let (st', res) := execSend f d.st r d.next body
+        match res with
+        | .failed e => ({ d with st := st' }, s!"{errName e},enc={encCalls},held={st'.calls.length},calls={st'.calls.length}")
+        | .sent w =>
+          let wire := s!"wire=[{sendFrameStr f body w}]"
+          if isP then
+            ({ st := st', pending := d.next :: d.pending, next := d.next + 1 },
+              s!"sent,enc={encCalls},held={st'.calls.length},calls={st'.calls.length},{wire}")
+          else
+            let st'' := respond st' d.next
+            ({ d with st := st'', next := d.next + 1 },
+              s!"ok,enc={encCalls},held={st''.calls.length},calls={st''.calls.length},{wire}")
+      | _, _ => (d, "bad-step")
+    | _ => (d, "bad-step")
+
 def step (_ : Unit) (ws : List String) : Unit × String :=
   ((), match ws with
   | ["req", kind, comp, ver, extra, stream, body, encres, _, _] =>
@@ -617,6 +669,8 @@ def step (_ : Unit) (ws : List String) : Unit × String :=
     match nc.toNat? with
     | some n => runSteps (negosStep (if codec == "none" then none else some codec) n) { adv := [], live := [], started := false } steps
     | none => "bad-op"
+  | "senderr" :: codec :: toks =>
+    runSteps (senderrStep codec) { st := SendSt.init, pending := [], next := 1 } toks
   | "held" :: _ :: toks => runSteps heldStep St.init toks
   | "flight" :: _ :: _ :: toks => runSteps flightStep { st := St.init, reqs := [] } toks
   | _ => "bad-op")
